@@ -1,5 +1,5 @@
-\* thorough: all 18 named lattices, first 5 rings, every ordered ring pair, both tie rules,
-\* block ends as written (bug) and repaired
+\* thorough: all 21 named lattices, first 5 rings, every ordered ring pair, both tie rules,
+\* block ends as written (bug) and repaired; Scales_t = the scale exponents of the instance family
 SPECIFICATION Spec
 CONSTANTS
   MODE = "rule"
@@ -10,8 +10,10 @@ CONSTANTS
   BugEnds = {TRUE, FALSE}
   CRanges = {0, 2, 710}
   Rots <- Rots_t
+  Scales <- Scales_t
 INVARIANT TypeOK
 INVARIANT CellLaws
+INVARIANT ScaleLaw
 INVARIANT Complete
 INVARIANT Irredundant
 INVARIANT NoCrash
